@@ -40,7 +40,8 @@ func guarded(f func() string) (res string) {
 }
 
 // cases:  dir_ser <ents> | dir_ser_gz <ents>   -> ok <hex of the uncompressed wire form>
-//         dir_deser <hex> | dir_deser_gz <hex> -> ok <ents>   (gz: the harness gzips the bytes first)
+//
+//	dir_deser <hex> | dir_deser_gz <hex> -> ok <ents>   (gz: the harness gzips the bytes first)
 func c03run(line string) (string, []string) {
 	t := newToks(line)
 	op := t.s()
